@@ -572,9 +572,35 @@ impl Harness for RoundTrip {
     }
 }
 
+/// The exchange with descriptions of every size: a fixed small interface whose first or last member
+/// (or the interface itself) carries a comment of L characters, so that the reply's size sweeps
+/// across several steps of the send buffer and long pieces of text land on every offset of it.
+fn exchange_size_case(idx: u64, sink: &mut xplore::Sink<'_>) {
+    let (l, place) = ((idx / 3) as usize, (idx % 3) as usize);
+    let long = "lorem ipsum dolor sit amet ".repeat(l / 27 + 1)[..l].trim_end().to_string();
+    let c = |on: bool| if on && !long.is_empty() { vec![long.clone()] } else { vec![] };
+    let iface = RIface {
+        comments: c(place == 0),
+        name: "a.b".into(),
+        members: vec![
+            RMember { comments: c(place == 1), name: "T".into(), kind: RKind::TypeStruct(vec![RField { comments: vec![], name: "a".into(), ty: RType::Int }]) },
+            RMember { comments: vec!["short".into()], name: "M".into(), kind: RKind::Method(vec![], vec![RField { comments: vec![], name: "b_c".into(), ty: RType::String }]) },
+            RMember { comments: c(place == 2), name: "E".into(), kind: RKind::Error(vec![]) },
+        ],
+    };
+    sink.goal("exchange-with-descriptions-of-every-size");
+    match round_trip(&iface, true) {
+        Ok(()) => {
+            sink.steps(1);
+            sink.pass(idx)
+        }
+        Err((class, detail)) => sink.fail(class, format!("comment of {} characters on {}: {}", long.len(), ["the interface", "the first member", "the last member"][place], detail.chars().take(600).collect::<String>()), json!({"what": "exchange-size", "index": idx})),
+    }
+}
+
 pub fn run_c14(tier: Tier) -> i32 {
     let mut rep = Report::new("C14", tier.name());
-    rep.rule = "DFS over reference trees as in C13 (members x field lists x type trees within a budget, comments on every subset of the interface / member / direct field / parameter / variant positions; in the comment-texts phases every one of nine comment texts - plain, empty, and texts that look like IDL: brackets before / after a colon, a colon or a closing bracket alone, keywords, a text that itself starts with `#` - on every position); each is built through zlink's public owned constructors, rendered with Display, parsed, compared deeply (comments included) and rendered again; the same for descriptions the parser produced from the harness's own text; in the `exchange` phases the description additionally travels as a GetInterfaceDescription reply through a real Connection and is parsed by the generated org.varlink.service proxy. Distinct = distinct descriptions".into();
+    rep.rule = "DFS over reference trees as in C13 (members x field lists x type trees within a budget, comments on every subset of the interface / member / direct field / parameter / variant positions; in the comment-texts phases every one of nine comment texts - plain, empty, and texts that look like IDL: brackets before / after a colon, a colon or a closing bracket alone, keywords, a text that itself starts with `#` - on every position); each is built through zlink's public owned constructors, rendered with Display, parsed, compared deeply (comments included) and rendered again; the same for descriptions the parser produced from the harness's own text; in the `exchange` phases the description additionally travels as a GetInterfaceDescription reply through a real Connection and is parsed by the generated org.varlink.service proxy; phase exchange/description-sizes: the exchange for a fixed interface with a comment of every length 0..700 (thorough 1500) on the interface, its first or its last member, so that the reply crosses several steps of the send buffer at every offset. Distinct = distinct descriptions".into();
     rep.assumptions = vec!["comments are plain single-line texts without leading whitespace; comment text is compared modulo surrounding whitespace".into(), "names are legal by the grammar".into()];
     for g in ["description-with-comments", "enum-with-commented-variant", "empty-member-list", "long-member-list"] {
         rep.require_goal(g);
@@ -612,6 +638,8 @@ pub fn run_c14(tier: Tier) -> i32 {
     for (name, h) in plan {
         rep.add(explore(name, json!({"what": "roundtrip", "exchange": h.exchange, "gen": h.gen.to_json()}), &h, &cfg));
     }
+    rep.require_goal("exchange-with-descriptions-of-every-size");
+    rep.add(xplore::sweep("exchange/description-sizes", 3 * tier.pick(700, 1500), &cfg, exchange_size_case));
     rep.finish()
 }
 
@@ -621,6 +649,14 @@ pub fn replay(v: &Value) -> Replayed {
         return match judge(&text) {
             Ok(h) => Replayed::Pass(vec![format!("text `{}`: {h}", simnet::show(text.as_bytes()))]),
             Err((class, detail)) => Replayed::Fail { trace: vec![], class, detail },
+        };
+    }
+    if v["case"]["what"] == "exchange-size" {
+        let idx = v["case"]["index"].as_u64().unwrap_or(0);
+        let st = xplore::sweep_one("exchange/description-sizes", idx, &Config { threads: 1, ..Default::default() }, exchange_size_case);
+        return match st.violations.into_iter().next() {
+            Some((class, rec)) => Replayed::Fail { trace: vec![format!("case {}", v["case"])], class, detail: rec.detail },
+            None => Replayed::Pass(vec![format!("case {}", v["case"])]),
         };
     }
     let h = &v["harness"];
